@@ -446,7 +446,11 @@ def assemble(template_path, repo=None, learn=False, modes=None):
                'mode': 'assumed (external_body: contract trusted, body not verified)'
                        if (any('verifier::external_body' in l for l in r.lines) or 'verifier::external_body' in prev_tail)
                        else ('definition' if r.kind in ('struct', 'enum') else 'verified'),
-               'changed_since_baseline': False}
+               'changed_since_baseline': False,
+               # the body of this item is visible to the obligations of OTHER functions (a type definition, or executable text that is
+               # also used as a spec function): a change here can legitimately make an unchanged function fail
+               'spec_visible': r.kind in ('struct', 'enum', 'trait', 'const', 'type')
+                               or any(re.search(r'\bspec fn\b|when_used_as_spec|\bspec\(checked\)', l) for l in r.lines)}
         prev_tail = ''
         if learn:
             new_base[r.key] = raw
